@@ -144,6 +144,19 @@ def build_cases(ctx):
             sp = splits(doc)
             sn, calls = sp[i % len(sp)] if i % 3 == 2 else sp[0]
             cases.append(Case("gen:%s:%d/%s" % (fs, i, sn), calls, st, supported=sup))
+            if "defaults" in f2 and i % 2 == 0:
+                # the same document with the integers inside its defaults spelled 3.0 (the same JSON numbers; rejection is allowed)
+                d2, nresp = gen.respell_integer_defaults(rng, doc)
+                if nresp: cases.append(Case("gen:%s:%d/respelled" % (fs, i), [{"root": d2}], st, supported=False))
+    # the add_type_with_name route on its own: one schema with every definition in-lined (nested in-line types, defaults inside them),
+    # as the only call of the history and after an unrelated batch
+    for i in range(60 if thorough else 10):
+        doc = gen.gen_universe(rng, 1 + i % 3, gen.FEATURE_SETS["defaults"] - ({"enum_untagged"} if i % 2 else set()))
+        one = gen.inline_refs(doc)
+        if one is None or len(json.dumps(one)) > 6000: continue
+        tcall = {"type": one, "name": "Root"}
+        calls = [tcall] if i % 3 else [{"defs": {"Unrelated": {"type": "object", "properties": {"u": {"type": "string"}}}}}, tcall]
+        cases.append(Case("inlined:%d" % i, calls, SETTINGS6[i % 6] if i % 2 else {}, supported=False))
     # recursive documents over every containment edge kind (C07's schema generator), and the shared corpus of awkward documents
     try:
         from props import c07
@@ -155,7 +168,7 @@ def build_cases(ctx):
         ctx.notes.append("c07.gen_schema unavailable: %r" % (e,))
     import corpus
     for cid, cdoc, cst in corpus.documents():
-        if cid.startswith("hand:"): cases.append(Case("corpus:" + cid, [{"root": cdoc}], cst, supported=False))
+        if cid.startswith(("hand:", "file:")): cases.append(Case("corpus:" + cid, [{"root": cdoc}], cst, supported=False))
     # settings drawn from the document (patch / replace / convert): c14's plans, compilable ones only
     try:
         from props import c14
